@@ -82,7 +82,12 @@ def walk_stmts(n, visit):
         c = expr(cond) if cond.get('kind') else None
         return ('for', var, lo, c, walk_stmts(body, visit))
     if k == 'CXXForRangeStmt':
-        return ('forrange', None, walk_stmts(n['inner'][-1], visit))
+        rng = None
+        for c in n.get('inner', []):
+            if c.get('kind') == 'DeclStmt':
+                for vd in c.get('inner', []):
+                    if vd.get('kind') == 'VarDecl' and vd.get('name', '').startswith('__range') and vd.get('inner'): rng = expr(vd['inner'][-1])
+        return ('forrange', rng, walk_stmts(n['inner'][-1], visit))
     if k == 'WhileStmt': return ('while', expr(n['inner'][0]) if n['inner'][0].get('kind') else None, walk_stmts(n['inner'][-1], visit))
     if k == 'IfStmt':
         inner = [c for c in n['inner']]
@@ -94,6 +99,7 @@ def walk_stmts(n, visit):
         val = expr(n['inner'][0]); return ('case', val, walk_stmts(n['inner'][-1], visit))
     if k == 'DefaultStmt': return ('default', walk_stmts(n['inner'][-1], visit))
     if k == 'BreakStmt': return ('break',)
+    if k == 'ContinueStmt': return ('continue',)
     if k == 'ReturnStmt': return ('return',)
     if k == 'DeclStmt':
         ds = []
